@@ -273,8 +273,12 @@ class ModeDReader(MeterReaderBase[DataReadout]):
         """
         readouts_received: list[DataReadout] = []
 
+        # Bytes consumed by previous calls are not needed any more.
+        self._buffer.trim_buffer_to_current_position()
+
         if len(self._buffer) > 8191:
             self._is_int_hunt_mode = True
+            self._raw_data.clear()
             self._buffer.trim_buffer_to_flag_or_end()
 
         self._buffer.extend(data_chunk)
